@@ -229,6 +229,27 @@ def sortG {α} (lt : α → α → Bool) (l : List α) : List α := l.foldr (ins
 
 def sortV (l : List VLit) : List VLit := sortG pyLt l
 
+/-! ### mixed collections: non-literal terms and literals with values -/
+
+/-- a term whose literal carries its value -/
+inductive VTerm
+  | node (c : NCls) (s : Str)
+  | lit (a : VLit)
+  deriving DecidableEq
+
+def VTerm.term : VTerm → Term
+  | .node c s => .node c s
+  | .lit a => a.term
+
+/-- Python `x < y` on terms (`Identifier.__lt__` as in `ltTerm`; two literals: `pyLt`) -/
+def vtLt : VTerm → VTerm → Bool
+  | .node c s, .node c' s' => if c = c' then strLt s s' else decide (rank c < rank c')
+  | .node c _, .lit _ => decide (rank c < rankLit)
+  | .lit _, .node _ _ => false
+  | .lit a, .lit b => pyLt a b
+
+def sortVT (l : List VTerm) : List VTerm := sortG vtLt l
+
 /-! ### families: where the order is a value order -/
 
 /-- comparison key of a literal inside a family: the key of its value, or its lexical form when it has no value -/
